@@ -86,7 +86,8 @@ SmallEv(ev) == /\ Small(ev.w) /\ (Has(ev, "w2") => Small(ev.w2))
 BitOps == {"bits", "bswap", "rot", "bitpos", "hton", "ilog2"}
 ArithOps == {"add_sat", "div_sat", "midpoint", "gcd", "lcm", "abs", "idiv", "ipow", "sat_cast", "in_range", "cmp"}
 \* grouped events: every single-type binary function on one pair ("bin"), the mixed-type ones ("mix")
-GroupOps == {"bin", "mix"}
+\* and saturate_cast / in_range of one value to every target type ("casts": to = <<rw, rs, cast result, in_range>>...)
+GroupOps == {"bin", "mix", "casts"}
 AllOps == BitOps \cup ArithOps \cup GroupOps
 
 \* the logged arguments are well-formed values of their types (anything else is a harness error)
@@ -97,7 +98,9 @@ WellFormed(ev) ==
     /\ (Has(ev, "rw") => ev.rw \in {8, 16, 32, 64} /\ ev.rs \in {0, 1})
     /\ (Has(ev, "y") => IF Has(ev, "w2") THEN ValOK(ev.y, ev.w2, ev.s2) ELSE ValOK(ev.y, ev.w, ev.s))
     /\ (ev.op \in ArithOps \ {"in_range", "cmp", "idiv"} => ValOK(ev.ret, RW(ev), RS(ev)))
-    /\ (ev.op \in GroupOps => ValOK(ev.gcd, RW(ev), RS(ev)) /\ ValOK(ev.lcm, RW(ev), RS(ev)) /\ Len(ev.cmp) = 6)
+    /\ (ev.op = "casts" => \A k \in DOMAIN ev.to : /\ Len(ev.to[k]) = 4 /\ ev.to[k][1] \in {8, 16, 32, 64} /\ ev.to[k][2] \in {0, 1}
+                                                    /\ ValOK(ev.to[k][3], ev.to[k][1], ev.to[k][2]))
+    /\ (ev.op \in {"bin", "mix"} => ValOK(ev.gcd, RW(ev), RS(ev)) /\ ValOK(ev.lcm, RW(ev), RS(ev)) /\ Len(ev.cmp) = 6)
     /\ (ev.op = "bin" => /\ ValOK(ev.add_sat, ev.w, ev.s) /\ ValOK(ev.div_sat, ev.w, ev.s) /\ ValOK(ev.midpoint, ev.w, ev.s)
                          /\ Len(ev.idiv) = 2 /\ (Has(ev, "ipow") => ValOK(ev.ipow, ev.w, ev.s)))
     /\ (ev.op \in {"bits", "rot", "bitpos"} => ev.s = 0)
@@ -155,7 +158,7 @@ RetZ(ev) == CASE ev.op \in {"in_range", "cmp"} -> ev.ret
 ArithBad(ev) ==
     LET e == IF SmallEv(ev) THEN ExpI(ev) ELSE ExpZ(ev) IN
     IF ~e.dom THEN ""
-    ELSE IF Has(ev, "trap") THEN "+trap"
+    ELSE IF Has(ev, "trap") THEN "+trap_" \o ev.op
     ELSE IF (IF SmallEv(ev) THEN RetI(ev) = ReprI(ev, e.v) ELSE RetZ(ev) = e.v) THEN "" ELSE "+" \o ev.op
 
 \* ---- bit functions ---------------------------------------------------------------------------------
@@ -209,7 +212,12 @@ BinSubs(ev) == <<Sub(ev, "add_sat", ev.add_sat), Sub(ev, "div_sat", ev.div_sat),
                  Sub(ev, "gcd", ev.gcd), Sub(ev, "lcm", ev.lcm), Sub(ev, "idiv", ev.idiv), Sub(ev, "cmp", ev.cmp)>>
                \o (IF Has(ev, "ipow") THEN <<Sub(ev, "ipow", ev.ipow)>> ELSE <<>>)
 MixSubs(ev) == <<Sub(ev, "cmp", ev.cmp), Sub(ev, "gcd", ev.gcd), Sub(ev, "lcm", ev.lcm)>>
-Subs(ev) == IF ev.op = "bin" THEN BinSubs(ev) ELSE MixSubs(ev)
+CastSub(ev, op, t, ret) == [op |-> op, w |-> ev.w, s |-> ev.s, x |-> ev.x, rw |-> t[1], rs |-> t[2], ret |-> ret]
+RECURSIVE CastSubsR(_, _)
+CastSubsR(ev, k) == IF k > Len(ev.to) THEN <<>>
+                    ELSE <<CastSub(ev, "sat_cast", ev.to[k], ev.to[k][3]), CastSub(ev, "in_range", ev.to[k], ev.to[k][4])>>
+                         \o CastSubsR(ev, k + 1)
+Subs(ev) == IF ev.op = "bin" THEN BinSubs(ev) ELSE IF ev.op = "mix" THEN MixSubs(ev) ELSE CastSubsR(ev, 1)
 RECURSIVE GroupBadR(_, _)
 GroupBadR(subs, i) == IF i > Len(subs) THEN "" ELSE ArithBad(subs[i]) \o GroupBadR(subs, i + 1)
 
@@ -238,6 +246,6 @@ ExpectedRec(ev) ==
       [] ev.op = "ilog2" -> [ret |-> BitWidth(b) - 1]
       [] ev.op \in GroupOps -> [k \in 1..Len(Subs(ev)) |->
                                   LET e == IF SmallEv(Subs(ev)[k]) THEN ExpI(Subs(ev)[k]) ELSE ExpZ(Subs(ev)[k]) IN
-                                  [f |-> Subs(ev)[k].op, defined |-> e.dom, v |-> e.v]]
+                                  [f |-> Subs(ev)[k].op, rw |-> RW(Subs(ev)[k]), rs |-> RS(Subs(ev)[k]), defined |-> e.dom, v |-> e.v]]
       [] OTHER -> [ret |-> (IF SmallEv(ev) THEN ExpI(ev) ELSE ExpZ(ev)).v]
 =============================================================================
